@@ -244,3 +244,7 @@ Definition set_cols (s : screen) (ob : list Z) (mk : list bool) : screen :=
   {| s_rows := put_cols (s_rows s) ob mk; s_arity := s_arity s; s_ctrl := s_ctrl s;
      s_tmap := s_tmap s; s_smap := s_smap s; s_pmap := s_pmap s;
      s_tids := s_tids s; s_sids := s_sids s; s_pids := s_pids s |}.
+
+(* ---- Screen.__init__, the two statement runs that decide the observation mask ---- *)
+Definition np_eq_name (a : list name) (x : name) : list bool := map (fun y => name_eqb y x) a.      (* a == x, a a string array *)
+Definition np_eq_bool (a : list bool) (b : bool) : list bool := map (fun y => Bool.eqb y b) a.      (* a == b, a a bool array *)
